@@ -153,7 +153,7 @@ impl Check for C18 {
             .boxed()
     }
     fn cases(&self, tier: Tier) -> u32 {
-        tier.pick(5000, 100000)
+        tier.pick(60000, 800000)
     }
     fn run(&self, c: &IdCase, st: &mut Stats) -> Verdict {
         let (g, flat) = build_grammar(c);
